@@ -286,7 +286,15 @@ def foreign_variants():
 
 
 def foreign_cases(tier):
-    return [{"variant": v, "container": c, "n": n} for v in foreign_variants() for c in ("stream", "avro") for n in (1, 40)]
+    cases = [{"variant": v, "container": c, "n": n} for v in foreign_variants() for c in ("stream", "avro") for n in (1, 40)]
+    # two complete record streams joined (cat a.records b.records), each compressed on its own or joined first
+    for codec in ("none", "gz", "bz2", "lz4", "zst"):
+        for how in ("each-compressed", "joined-then-compressed"):
+            if codec == "none" and how != "each-compressed":
+                continue
+            for n in (0, 3):
+                cases.append({"variant": "%s/cat-two-streams:%s" % (codec, how), "container": "stream", "n": n, "cat": how})
+    return cases
 
 
 def check_foreign(case, ctx):
@@ -314,9 +322,25 @@ def check_foreign(case, ctx):
         expected = [observe(r) for r in ref]
         if len(ref) != len(records):
             raise RuntimeError("harness: uncompressed reference reading gives %d of %d records" % (len(ref), len(records)))
-        data = foreign_variants()[variant](plain)
-        if decompress(codec, data) != plain if "two-" not in variant else False:
-            raise RuntimeError("harness: variant %s does not decompress to the input" % variant)
+        if case.get("cat"):
+            # a second complete stream (own header, own descriptor frames) behind the first
+            second = [desc("w%d" % i, 100 + i, b"", _generated=g) for i in range(case["n"] + 1)]
+            p2 = os.path.join(tmp, "second.records")
+            w = RecordWriter(p2)
+            for r in second:
+                w.write(r)
+            w.flush()
+            w.close()
+            plain2 = open(p2, "rb").read()
+            expected = expected + [observe(r) for r in second]
+            comp = {"none": lambda b: b, "gz": gzip.compress, "bz2": bz2.compress,
+                    "lz4": __import__("lz4.frame").frame.compress,
+                    "zst": __import__("zstandard").ZstdCompressor().compress}[codec]
+            data = comp(plain) + comp(plain2) if case["cat"] == "each-compressed" else comp(plain + plain2)
+        else:
+            data = foreign_variants()[variant](plain)
+            if decompress(codec, data) != plain if "two-" not in variant else False:
+                raise RuntimeError("harness: variant %s does not decompress to the input" % variant)
         named = os.path.join(tmp, ("f.records" if container == "stream" else "f.avro") + ext)
         hidden = os.path.join(tmp, "hidden.bin")
         for p_ in (named, hidden):
@@ -488,7 +512,19 @@ SIGS = [b"\x1f\x8b", b"BZh", b"\x04\x22\x4d\x18", b"\x28\xb5\x2f\xfd", b"Obj", b
 
 @st.composite
 def garbage_case(draw):
-    kind = draw(st.sampled_from(["random", "signature+garbage", "empty", "text"]))
+    kind = draw(st.sampled_from(["random", "signature+garbage", "empty", "text", "stream-header+text"]))
+    if kind == "stream-header+text":
+        # the 19-byte header of a record stream followed by something that is not a frame at all (printable text
+        # of six or more characters): not a record stream either, and not an empty one
+        junk = draw(st.text(st.characters(min_codepoint=0x20, max_codepoint=0x7E), min_size=6, max_size=60)).encode()
+        way = draw(st.sampled_from(["bytesio", "path", "hidden-path", "buffered-file"]))
+        data = refcodec.HEADER_FRAME + junk
+        codec = draw(st.sampled_from(["none", "none", "gz", "bz2"]))
+        if codec == "gz":
+            data = gzip.compress(data)
+        elif codec == "bz2":
+            data = bz2.compress(data)
+        return {"data": data, "kind": kind, "way": way}
     if kind == "random":
         data = draw(st.binary(min_size=1, max_size=80))
     elif kind == "signature+garbage":
